@@ -8,7 +8,8 @@ naturals as a shape (`ints l`), any natural block size / merge limit / dimension
 model function is a theorem about the code as translated today (`gen_*` theorems below spell out some).
 When the source changes behaviour, `Gen/Src.lean` changes and the corresponding proof stops type-checking.
 
-Theorems are grouped by the property whose check builds them: namespace `GenProps.C06`, `GenProps.C10`.
+Theorems are grouped by the property whose check builds them: namespace `GenProps.C06`, `GenProps.C10`
+(`GenProps.C13`: the padding count, available to the C13 check through `lean_stage(extra_props=("Gen",))`).
 Helper lemmas are in `Lemmas/GenBridge.lean`.
 -/
 import PrecondVerif.Lemmas.GenBridge
@@ -133,3 +134,22 @@ theorem gen_precond_dim_consistent (c : Int) (d : Nat) :
 example : Gen.precondDim (-2) 5 = 4 ∧ Gen.shouldCompress (-2) 5 = true ∧ Gen.precondDim 3 5 = 5 := by decide
 
 end PrecondVerif.GenProps.C10
+
+namespace PrecondVerif.GenProps.C13
+open PrecondVerif PrecondVerif.GenBridge
+
+/-- The padding count `to_pad = -n % d` (the common shape of every such assignment in `distributed_shampoo.py`,
+extracted by the assign-pattern rule) is the least non-negative `r` with `d ∣ n + r`: direct theorems about the
+generated definition (no hand-written model involved). -/
+theorem to_pad_spec (n D : Nat) (hD : 0 < D) :
+    0 ≤ Gen.toPad (n : Int) (D : Int) ∧ Gen.toPad (n : Int) (D : Int) < (D : Int) ∧
+      (D : Int) ∣ (n : Int) + Gen.toPad (n : Int) (D : Int) :=
+  toPad_spec n D hD
+
+theorem to_pad_minimal (n D : Nat) (hD : 0 < D) (r : Int) (hr : 0 ≤ r) (hdvd : (D : Int) ∣ (n : Int) + r) :
+    Gen.toPad (n : Int) (D : Int) ≤ r :=
+  toPad_minimal n D hD r hr hdvd
+
+example : Gen.toPad 5 4 = 3 ∧ Gen.toPad 8 4 = 0 ∧ Gen.toPad 0 3 = 0 := by decide
+
+end PrecondVerif.GenProps.C13
